@@ -46,7 +46,11 @@ struct Script {
     if ((long)step == err_at) {
       step++;
       served.push_back(-1);
-      errno = EIO;
+      // the kind of failure rotates: an error is an error whatever its number ("would block" on a descriptor somebody
+      // made non-blocking, an interrupted call, a bad descriptor) - never a reason to return what was read so far
+      static const int ERRS[] = {EIO, EAGAIN, EINTR, EBADF, EWOULDBLOCK, ENOMEM};
+      static unsigned which = 0;
+      errno = ERRS[which++ % 6];
       return -1;
     }
     size_t left = data.size() - pos;
@@ -136,7 +140,8 @@ static void ev_read_all(bool via_fd, const string& data, const vector<size_t>& p
   size_t delivered = S.pos;
   bool eq = ret.size() <= data.size() && memcmp(ret.data(), data.data(), ret.size()) == 0;
   vt::J j;
-  j.str("e", "ra").str("via", via_fd ? "fd" : "file").num("srclen", (long long)data.size()).num("err", err_at >= 0);
+  bool err_served = find(S.served.begin(), S.served.end(), -1L) != S.served.end();  // did a read really fail?
+  j.str("e", "ra").str("via", via_fd ? "fd" : "file").num("srclen", (long long)data.size()).num("err", err_served);
   j.str("out", out).num("len", (long long)ret.size()).num("eq", eq).num("delivered", (long long)delivered);
   j.raw("reqs", jl(S.reqs)).raw("plan", jl(S.served));
   tr.emit(j);
@@ -624,6 +629,7 @@ int main(int argc, char** argv) {
       ev_read_all(true, pattern(size, size + rep), plan, -1);
       ev_read_all(false, pattern(size, size + rep + 99), plan, -1);
       if (rep % 3 == 0 && !plan.empty()) ev_read_all(true, pattern(size, size), plan, (long)r.below(plan.size() + 1));
+      if (rep % 3 == 1 && !plan.empty()) ev_read_all(false, pattern(size, size + 7), plan, (long)r.below(plan.size() + 1));
     }
   // 2. fgets: every line length 0..1100 (quick: around the block boundaries), several chunkings
   vector<size_t> lens;
